@@ -53,6 +53,7 @@ def gen_program(r, idx):
     kwdefaults = [r.choice(POOL) for _ in range(nkw)]
     return dict(npos=npos, ndef=ndef, varargs=varargs, nkw=nkw, kwdef=kwdef, varkw=varkw, kind=kind,
                 defaults=defaults, kwdefaults=kwdefaults,
+                falsy=r.random() < 0.3,     # the instance (methods, callable instances) is falsy: `bool(inst)` is False
                 p_npos=r.choice([0, 1, 1, 2]), p_kw=r.random() < 0.5, p_kwname=r.choice(PNAMES + KWONLY + ['q']),
                 p_vals=[r.choice(POOL) for _ in range(3)])
 
@@ -89,6 +90,7 @@ def build_callable(prog):
     else:
         meth = '__call__' if kind == 'callable' else 'target'
         src = 'class C(object):\n    def %s(%s):\n        _calls.append(1); return 0\n' % (meth, ', '.join(['self'] + params))
+        if prog.get('falsy'): src += '    def __len__(self): return 0\n'
         exec(src, ns)
         inst = ns['C']()
         if kind in ('method', 'partial_method'): f = inst.target
